@@ -186,6 +186,7 @@ yield1:
 		if (UNLIKELY(off == ctx->buf)) {
 			/* one line filling the whole buffer, hand that out */
 			set_loff(ctx, ctx->tot_lno++, bno - ctx->buf);
+			*bno = '\0';
 			off = bno;
 		}
 		YIELD(3);
@@ -229,6 +230,9 @@ yield2:
 			/* last line then, not concluded with \n,
 			 * count it as line, and off we go */
 			set_loff(ctx, ctx->tot_lno++, bno - ctx->buf);
+			/* finish it like any other line, there may be
+			 * left-overs of earlier lines behind it */
+			*bno = '\0';
 			off = bno;
 			YIELD(3);
 		}
